@@ -48,7 +48,7 @@ theorem stmt_main_sem : ∀ f : Nat,
         ∃ efs, compileStmts (fixedEnv env) st ss = .ok (efs, st') ∧
           ∃ σIL', ExecSeqIL ms effs σIL σIL' ∧ ExecSeqIL ms efs σIL σIL' ∧ Inv c σC' σIL') ∧
     (∀ v cond body st bs bsf st' cc fc stepE loopBody loopBodyF σC σIL σC', compileExpr (codeEnv env) cond = .ok cc →
-        compileExpr (fixedEnv env) cond = .ok fc → CarveESem env.assigned cond = true → condOK fc = true →
+        compileExpr (fixedEnv env) cond = .ok fc → CarveCSem env cond = true →
         compileStmts (codeEnv env) st body = .ok (bs, st') → compileStmts (fixedEnv env) st body = .ok (bsf, st') →
         CarveSsSem env body = true →
         LoopShape ms c v 0 bs stepE loopBody → LoopShape ms c v 0 bsf stepE loopBodyF →
@@ -64,7 +64,7 @@ theorem stmt_main_sem : ∀ f : Nat,
     refine ⟨?_, ?_, ?_⟩
     · intro s st eff st' σC σIL σC' _ _ _ _ _ h; simp [execC] at h
     · intro ss st effs st' σC σIL σC' _ _ _ _ _ h; simp [execCs] at h
-    · intro v cond body st bs bsf st' cc fc stepE loopBody loopBodyF σC σIL σC' _ _ _ _ _ _ _ _ _ _ _ _ h
+    · intro v cond body st bs bsf st' cc fc stepE loopBody loopBodyF σC σIL σC' _ _ _ _ _ _ _ _ _ _ _ h
       simp [loopC] at h
   | succ f ih =>
     obtain ⟨ihE, ihS, ihL⟩ := ih
@@ -161,10 +161,9 @@ theorem stmt_main_sem : ∀ f : Nat,
           clear hex hex1
           simp only [WFStmt, Bool.and_eq_true] at hwf
           simp only [CarveSSem, Bool.and_eq_true] at hcarve
-          obtain ⟨⟨⟨hcx, hcok⟩, hct⟩, _⟩ := hcarve
+          obtain ⟨⟨hcx, hct⟩, _⟩ := hcarve
           simp only [exprsOf, List.all_cons, List.all_append, Bool.and_eq_true] at hwfe
           obtain ⟨fc', hF', hpe⟩ := cond_sem hms hinv.inv env cnd hcx hwfe.1 hcc
-            (fun fc hf => by rw [hf] at hcok; exact hcok)
           rw [hF] at hF'; cases hF'
           have hsim := expr_sim hE henv (hinv.rel.agreeOn _ _ _) hinv.inv hinv.immVal
             (WFHyp_of_static (by simp only [List.all_cons, List.all_nil, Bool.and_true]; exact hwfe.1)) hvc hF
@@ -202,10 +201,9 @@ theorem stmt_main_sem : ∀ f : Nat,
           clear hex hex1
           simp only [WFStmt, Bool.and_eq_true] at hwf
           simp only [CarveSSem, Bool.and_eq_true] at hcarve
-          obtain ⟨⟨⟨hcx, hcok⟩, hct⟩, hce⟩ := hcarve
+          obtain ⟨⟨hcx, hct⟩, hce⟩ := hcarve
           simp only [exprsOf, List.all_cons, List.all_append, Bool.and_eq_true] at hwfe
           obtain ⟨fc', hF', hpe⟩ := cond_sem hms hinv.inv env cnd hcx hwfe.1 hcc
-            (fun fc hf => by rw [hf] at hcok; exact hcok)
           rw [hF] at hF'; cases hF'
           have hsim := expr_sim hE henv (hinv.rel.agreeOn _ _ _) hinv.inv hinv.immVal
             (WFHyp_of_static (by simp only [List.all_cons, List.all_nil, Bool.and_true]; exact hwfe.1)) hvc hF
@@ -241,7 +239,7 @@ theorem stmt_main_sem : ∀ f : Nat,
         simp only [TStRel] at hst; subst hst
         refine ⟨ef, hFs, ?_⟩
         simp only [CarveSSem, Bool.and_eq_true, beq_iff_eq] at hcarve
-        obtain ⟨⟨⟨hstep, hcx⟩, hcok⟩, hcb⟩ := hcarve
+        obtain ⟨⟨hstep, hcx⟩, hcb⟩ := hcarve
         subst hstep
         simp only [execC] at hex
         simp only [WFStmt, Bool.and_eq_true] at hwf
@@ -274,8 +272,7 @@ theorem stmt_main_sem : ∀ f : Nat,
               .setl v (.inc (.varl v) 32)]]) :=
             { body := fun σ σ1 σ2 h1 h2 => ExecIL_seqn.2 (ExecSeqIL_cons (mkSeq_exec.2 h1) (ExecSeqIL_cons h2 ExecSeqIL_nil))
               step := fun σC1 σIL1 w x hi hl => for_step_correct (ms := ms) hc hi hvt hv (isTmp_tmp _) hl }
-          have hcokf : condOK fc = true := by rw [hF] at hcok; exact hcok
-          obtain ⟨σIL', hx, hxF, hinv'⟩ := ihL v cnd body _ bs bsf _ cc fc _ _ _ _ σIL0 σC' hcc hF hcx hcokf hbs hbsf hcb
+          obtain ⟨σIL', hx, hxF, hinv'⟩ := ihL v cnd body _ bs bsf _ cc fc _ _ _ _ σIL0 σC' hcc hF hcx hbs hbsf hcb
             hshape hshapeF hwfb hwfe hinv0 hex
           exact ⟨σIL', ExecIL_seqn.2 (ExecSeqIL_cons hx0 (ExecSeqIL_cons hx ExecSeqIL_nil)),
             ExecIL_seqn.2 (ExecSeqIL_cons hx0 (ExecSeqIL_cons hxF ExecSeqIL_nil)), hinv'⟩
@@ -315,7 +312,7 @@ theorem stmt_main_sem : ∀ f : Nat,
             have := ExecIL_det hx1 ExecIL_empty
             subst this
             exact ⟨σIL2, hx2, hx2F, hinv2⟩
-    · intro v cond body st bs bsf st' cc fc stepE loopBody loopBodyF σC σIL σC' hcc hF hcx hcok hbs hbsf hcb hshape hshapeF
+    · intro v cond body st bs bsf st' cc fc stepE loopBody loopBodyF σC σIL σC' hcc hF hcx hbs hbsf hcb hshape hshapeF
         hwfb hwfe hinv hex
       rw [loopC] at hex
       obtain ⟨vc, hvc, hex1⟩ := bind_ok hex
@@ -324,7 +321,6 @@ theorem stmt_main_sem : ∀ f : Nat,
       have hwfe' := hwfe
       simp only [List.all_cons, Bool.and_eq_true] at hwfe'
       obtain ⟨fc', hF', hpe⟩ := cond_sem hms hinv.inv env cond hcx hwfe'.1 hcc
-        (fun fc'' hf => by rw [hF] at hf; cases hf; exact hcok)
       rw [hF] at hF'; cases hF'
       have hsim := expr_sim hE henv (hinv.rel.agreeOn _ _ _) hinv.inv hinv.immVal
         (WFHyp_of_static (by simp only [List.all_cons, List.all_nil, Bool.and_true]; exact hwfe'.1)) hvc hF
@@ -346,7 +342,7 @@ theorem stmt_main_sem : ∀ f : Nat,
         · rename_i w x hl
           obtain ⟨σIL2, hx2, hinv2⟩ := hshape.step σ1 σIL1 w x hinv1 hl
           obtain ⟨σIL', hx3, hx3F, hinv'⟩ := ihL v cond body st bs bsf st' cc fc stepE loopBody loopBodyF _ σIL2 σC' hcc hF hcx
-            hcok hbs hbsf hcb hshape hshapeF hwfb hwfe hinv2 hex3
+            hbs hbsf hcb hshape hshapeF hwfb hwfe hinv2 hex3
           exact ⟨σIL', ExecIL_repeat_true hcond (hshape.body _ _ _ hx1 hx2) hx3,
             ExecIL_repeat_true hcondF (hshapeF.body _ _ _ hx1F hx2) hx3F, hinv'⟩
         · simp at hex3
